@@ -357,6 +357,7 @@ func c12R5(c *core.Ctx, r *core.Report, ro *core.Roles, sorter *ssa.Function) {
 	family := []*types.Func{ro.CPBeforeInit, ro.CPAfterInit, ro.IABeforeInst, ro.IAAfterInst, ro.IAProps, ro.SmartEarlyRef}
 	fields := map[core.FieldRef]bool{}
 	nLoops := 0
+	var covered map[*ssa.Function]bool
 	for _, fn := range c.Scope {
 		for _, s := range core.Calls(fn) {
 			com := s.Common()
@@ -377,7 +378,16 @@ func c12R5(c *core.Ctx, r *core.Report, ro *core.Roles, sorter *ssa.Function) {
 			}
 			rl := core.RangeLoopOf(fn, s.Block())
 			if rl == nil {
-				r.Fail("C12.R5", cons, c.Pos(s.Pos()), "post-processor invoke is not inside a forward range over a slice")
+				// dispatch through a visitor / per-processor helper: the order is decided by the stage's decision table
+				if covered == nil {
+					covered = dispatchTables(c, r, "C12.R5")
+				}
+				if covered[fn] || covered[core.TopLevel(fn)] {
+					nLoops++
+					r.Hold("C12.R5", cons, c.Pos(s.Pos()), "dispatch site of a stage whose decision table decides the order over the dispatch list (visitor / helper form)")
+				} else {
+					r.Fail("C12.R5", cons, c.Pos(s.Pos()), "post-processor invoke is neither inside a forward range over a slice nor part of a stage decided by a decision table")
+				}
 				continue
 			}
 			// receiver: element or a type assertion of the element
@@ -441,6 +451,80 @@ func c12R5(c *core.Ctx, r *core.Report, ro *core.Roles, sorter *ssa.Function) {
 			"the dispatch list is written only by the bootstrap routine and its helpers")
 	}
 	bsTable(c, r, bs, "C12.R5", map[string]bool{"chain-order": true, "managed": true})
+}
+
+// dispatchTables runs the decision tables of the four dispatch stages (before-instantiation resolver, property stage,
+// initialization, early reference) - each interprets its stage on processor lists bound to the delegate's dispatch
+// field only - reports their order rows under rule and returns the functions those stages consist of.
+func dispatchTables(c *core.Ctx, r *core.Report, rule string) map[*ssa.Function]bool {
+	ro := c.Roles()
+	covered := map[*ssa.Function]bool{}
+	cover := func(fn *ssa.Function) {
+		reachesCall(fn, func(*ssa.CallCommon) bool { return false }, covered)
+	}
+	only := func(names ...string) func(string) string {
+		return func(row string) string {
+			for _, n := range names {
+				if n == row {
+					return rule
+				}
+			}
+			return ""
+		}
+	}
+	pickRows := func(all map[string]string, names ...string) map[string]string {
+		out := map[string]string{}
+		for _, n := range names {
+			out[n] = all[n]
+		}
+		return out
+	}
+	// resolver
+	subs := lowestReaching(c, "container/factory",
+		func(com *ssa.CallCommon) bool { return core.IsInvoke(com, ro.IABeforeInst) },
+		func(com *ssa.CallCommon) bool { return core.IsInvoke(com, ro.CPAfterInit) })
+	if len(subs) == 1 {
+		cons := "resolver-table@" + core.FnName(subs[0])
+		if rs, _, und := resolverTable(c, subs[0], 2); und != "" {
+			r.Undecided(rule, cons, c.FnPos(subs[0]), "abstract interpretation left the model: "+und)
+		} else {
+			rs.report(c, r, subs[0], only("ask-in-order", "after-init-only"), cons, pickRows(resolverRows, "ask-in-order", "after-init-only"))
+			cover(subs[0])
+		}
+	}
+	// property stage
+	if fn := propsStageEntry(c); fn != nil {
+		cons := "props-stage-table@" + core.FnName(fn)
+		if rs, _, und := propsStageTable(c, fn, 2); und != "" {
+			r.Undecided(rule, cons, c.FnPos(fn), "abstract interpretation left the model: "+und)
+		} else {
+			rs.report(c, r, fn, only("order"), cons, pickRows(propsStageRows, "order"))
+			cover(fn)
+		}
+	}
+	// initialization and early reference
+	sub := core.NewReport("C12", c.Tier, 0)
+	if l := findLifecycle(c, sub, rule); l != nil {
+		cons := "init-table@" + core.FnName(l.initFn)
+		if rs, _, und := initTable(c, l.initFn, 2); und != "" {
+			r.Undecided(rule, cons, c.FnPos(l.initFn), "abstract interpretation left the model: "+und)
+		} else {
+			rs.report(c, r, l.initFn, only("sequence"), cons, pickRows(initRows, "sequence"))
+			cover(l.initFn)
+		}
+		econs := "early-factory-table@" + core.FnName(l.exposer)
+		if rs, _, und := earlyFactoryTable(c, l, 2); und != "" {
+			r.Undecided(rule, econs, c.FnPos(l.exposer), "abstract interpretation left the model: "+und)
+		} else {
+			rs.report(c, r, l.exposer, only("chain"), econs, pickRows(earlyFactoryRows, "chain"))
+			for _, ci := range addFactorySites(c, l) {
+				if lit := core.ClosureOf(ci.Common().Args[1]); lit != nil {
+					cover(lit)
+				}
+			}
+		}
+	}
+	return covered
 }
 
 // bsTable runs the bootstrap decision table and reports the selected rows under rule.
